@@ -498,6 +498,10 @@ func (e *SelectorExpr) End() Pos {
 }
 
 func (e *SelectorExpr) String() string {
+	if _, ok := e.Expr.(*IntLit); ok {
+		// "1.a" would be scanned as the float literal "1." followed by "a"
+		return "(" + e.Expr.String() + ")." + e.Sel.String()
+	}
 	return e.Expr.String() + "." + e.Sel.String()
 }
 
